@@ -167,6 +167,12 @@ def main(tier, replay):
                 if bool(gm.violation) != expect:
                     raise Infra("GlobalCount.tla variant %s: unexpected result %s" % (variant, gm.violated()))
                 states, trans = states + gm.distinct, trans + gm.generated
+            # the token count of a token-bucket schema under any grant: clamped to [0, reserve] verified, capped from above only refuted
+            for variant, expect in (("fixed", False), ("upper", True)):
+                gt = vlib.tlc("limiter", "GcTokens", "GcTokens.cfg", workers=2, timeout=300, consts={"Variant": '"%s"' % variant})
+                if bool(gt.violation) != expect:
+                    raise Infra("GcTokens.tla variant %s: unexpected result %s" % (variant, gt.violated()))
+                states, trans = states + gt.distinct, trans + gt.generated
             ng = 120 if tier == "quick" else 2000
             gg = vlib.tlc("limiter", "GlobalCountGen", "GlobalCountGen.cfg", workers=1, timeout=900, simulate="num=%d" % ng, depth=7, tlc_seed=seed)
             gh = list({vlib.canon(h): h for h in gg.json_prints("HIST")}.values())
